@@ -178,22 +178,35 @@ def _tableau_one(c):
   out = []
   tb = c['tb']
   fr = lambda row: [float(frac(v)) for v in row]
+  import numpy as np
   lam, mu = _c(c['lam']), _c(c['mu'])
   exp = _c(c['out'])
   log = []
+  # coefficient containers: python lists or float64 arrays (both are Sequence[float]); the same coefficient
+  # objects serve a second stepper with another step size (only dt*lam and dt*mu matter: same factor)
+  as_arrays = (len(json.dumps(tb)) % 2 == 0)
+  box = (lambda row: np.array(row, np.float64)) if as_arrays else (lambda row: list(row))
   if c['id'] == 'lowstorage':
-    step = ti.low_storage_runge_kutta_crank_nicolson(fr(tb['alphas']), fr(tb['betas']), fr(tb['gammas']),
-                                                     _linear_eq(lam, mu, log), 1.0)
+    coefs = (box(fr(tb['alphas'])), box(fr(tb['betas'])), box(fr(tb['gammas'])))
+    make = lambda eq, dt: ti.low_storage_runge_kutta_crank_nicolson(coefs[0], coefs[1], coefs[2], eq, dt)
   else:
-    tableau = ti.ImExButcherTableau(a_ex=[fr(r) for r in tb['a_ex']], a_im=[fr(r) for r in tb['a_im']],
-                                    b_ex=fr(tb['b_ex']), b_im=fr(tb['b_im']))
-    step = ti.imex_runge_kutta(tableau, _linear_eq(lam, mu, log), 1.0)
+    tableau = ti.ImExButcherTableau(a_ex=[box(fr(r)) for r in tb['a_ex']], a_im=[box(fr(r)) for r in tb['a_im']],
+                                    b_ex=box(fr(tb['b_ex'])), b_im=box(fr(tb['b_im'])))
+    make = lambda eq, dt: ti.imex_runge_kutta(tableau, eq, dt)
+  step = make(_linear_eq(lam, mu, log), 1.0)
   got = step({'a': jnp.ones((), jnp.complex128)})
   val = complex(got['a'])
   if not abs(val - exp) <= 2e-13 * max(1.0, abs(exp)):
     out.append({'case': c, 'sig': f'tableau:{c["id"]}:value',
                 'detail': f'n={c["n"]} coefficients {tb}: code factor {val!r}, '
                           f'{"low-storage recurrence" if c["id"] == "lowstorage" else "textbook IMEX-RK"} value {exp!r}'})
+  for dt in (0.5, 0.25):           # later steppers built from the same coefficient objects
+    again = complex(make(_linear_eq(lam / dt, mu / dt), dt)({'a': jnp.ones((), jnp.complex128)})['a'])
+    if not abs(again - exp) <= 2e-13 * max(1.0, abs(exp)):
+      out.append({'case': c, 'sig': f'tableau:{c["id"]}:reused_coefficients',
+                  'detail': f'a stepper built from the same coefficient objects ({"float64 arrays" if as_arrays else "lists"}) with dt={dt} '
+                            f'(same dt*lam, dt*mu) gives {again!r}, first stepper {val!r}, spec {exp!r}'})
+      break
   want = [(e['k'], float(frac(e['eta'])) if e['k'] == 'Ginv' else None) for e in c['calls']]
   have = [(k, e if k == 'Ginv' else None) for k, e in log]
   if [k for k, _ in want] != [k for k, _ in have] or any(
